@@ -378,10 +378,10 @@ def absorb_rejections(ctx, rej, family, trace_file, only=None):
             lines = open(trace_file).read().splitlines()
             i0 = items[0][0] - 1
             a = i0
-            while a > 0 and '"TraceReset"' not in lines[a] and '"WireReset"' not in lines[a] and '"PoolReset"' not in lines[a]:
+            while a > 0 and '"TraceReset"' not in lines[a] and '"WireReset"' not in lines[a] and '"PoolReset"' not in lines[a] and '"NcReset"' not in lines[a]:
                 a -= 1
             b = i0 + 1
-            while b < len(lines) and '"TraceReset"' not in lines[b] and '"WireReset"' not in lines[b] and '"PoolReset"' not in lines[b]:
+            while b < len(lines) and '"TraceReset"' not in lines[b] and '"WireReset"' not in lines[b] and '"PoolReset"' not in lines[b] and '"NcReset"' not in lines[b]:
                 b += 1
             open(dst, "w").write("\n".join(lines[a:b]) + "\n")
         except Exception:
@@ -489,6 +489,34 @@ def refine_validate(ctx, n, only=None, kind="mix"):
         absorb_rejections(ctx, rej, "TraceRefine", path, only=only)
     ctx.extra["refinement_executions_replayed_through_WSConn"] = ctx.extra.get("refinement_executions_replayed_through_WSConn", 0) + rep.get("evaluations", 0)
     ctx.extra["refinement_executions_cut_short_by_R3_reordering"] = ctx.extra.get("refinement_executions_cut_short_by_R3_reordering", 0) + skipped
+
+
+def deadline_validate(ctx, n, only=None):
+    """(C, refinement) concurrent executions of the NetConn deadline machinery (driver ncconc: a reader, a writer and a goroutine
+    setting deadlines on a real adapter, timer callbacks in between), one sub-trace per (connection, direction), replayed through
+    WSDeadline's OWN actions by TraceDeadline.tla: each must be a behaviour of the model-checked specification, and its invariants
+    are evaluated in every state on the way."""
+    trace = ctx.path("ncconc.ndjson")
+    rep = ctx.drive("ncconc", ["-n", n, "-seed", ctx.seed, "-trace", trace], timeout=1800)
+    ctx.absorb(rep, only=only)
+    ctx.impl_traces += rep.get("distinct", 0)
+    if not os.path.exists(trace) or os.path.getsize(trace) == 0:
+        raise Infra("ncconc wrote no trace")
+    nlines = sum(1 for _ in open(trace))
+    env = {"TRACE_FILE": trace, "JAVA_TOOL_OPTIONS": "-Dtlc2.tool.queue.IStateQueue=StateDeque"}
+    rec, out = ctx.tlc("TraceDeadline", "TraceDeadline.cfg", env=env, workers=1, expect_ok=False, name="TraceDeadline", timeout=3000)
+    rej = [(int(a), b, " ".join(c.split())) for a, b, c in REJ.findall(out)]
+    if "No error has been found" not in out and not rej:
+        if "is violated" in out:
+            ctx.violations.append(("invariant-of-WSDeadline-violated-on-a-real-execution", 1,
+                                   {"sig": "invariant-of-WSDeadline-violated-on-a-real-execution", "detail": out[out.find("Error: Invariant"):][:900], "case": {"trace": trace}}))
+            return
+        sys.stderr.write(out[-4000:])
+        raise Infra("TraceDeadline failed without a rejection (TLC error)")
+    ctx.extra["trace_events_validated"] = ctx.extra.get("trace_events_validated", 0) + nlines
+    ctx.extra["deadline_executions_replayed_through_WSDeadline"] = rep.get("distinct", 0)
+    ctx.extra["deadline_events"] = rep.get("extra", {}).get("deadline_events")
+    absorb_rejections(ctx, rej, "TraceDeadline", trace, only=only)
 
 
 def split_by_conn(src, dst):
